@@ -138,8 +138,45 @@ def mk(cls, v, m, rs):
         o, i, mm = [g("o0", 3)], [g("i0", 2)], [g("m0", 4)]
         A, B, B2 = G(o, mm), G(mm, i), G(o, mm)
         a = complex(m.get("a.re", 0.5), m.get("a.im", 2.0))
-        return {"A*B": lambda: A * B, "a*A": lambda: a * A, "A*a": lambda: A * a, "A+B": lambda: A + B2, "A-B": lambda: A - B2,
-                "-A": lambda: -A, "(A*B).H*(a*A)": lambda: (A * B).H * (a * A)}[v["kind"]]()
+        b = complex(m.get("b.re", -1.5), m.get("b.im", 0.75))
+        B3 = G(o, i)
+        kind = v["kind"]
+        op = {"A*B": lambda: A * B, "a*A": lambda: a * A, "A*a": lambda: A * a, "A+B": lambda: A + B2, "A-B": lambda: A - B2,
+              "-A": lambda: -A, "(A*B).H*(a*A)": lambda: (A * B).H * (a * A), "(a*A).H*(b*B3)": lambda: (a * A).H * (b * B3),
+              "(a*A).H*(a*A)": lambda: (a * A).H * (a * A), "(a*A).H*b": lambda: (a * A).H * b}[kind]()
+        dA, dB, dB2, dB3 = dense_matrix(A), dense_matrix(B), dense_matrix(B2), dense_matrix(B3)
+        AH = dA.conj().T
+        op._expected_dense = {"A*B": lambda: dA @ dB, "a*A": lambda: a * dA, "A*a": lambda: a * dA, "A+B": lambda: dA + dB2, "A-B": lambda: dA - dB2,
+                              "-A": lambda: -dA, "(A*B).H*(a*A)": lambda: (dA @ dB).conj().T @ (a * dA),
+                              "(a*A).H*(b*B3)": lambda: np.conj(a) * b * (AH @ dB3), "(a*A).H*(a*A)": lambda: abs(a) ** 2 * (AH @ dA),
+                              "(a*A).H*b": lambda: np.conj(a) * b * AH}[kind]()
+        return op
+    if cls == "DiagMixed":
+        k, iax, oax = v["k"], v["iaxis"], v["oaxis"]
+        common = sh("c", 2, 2)
+        ops = []
+        for j in range(k):
+            ish = [g("e%d" % j, 2 + j)]
+            osh = list(common)
+            osh[oax % 2] = g("g%d" % j, 1 + j)
+            ops.append(G(osh, ish))
+        op = L.Diag(ops, oaxis=oax, iaxis=iax)
+        # explicit block-diagonal matrix: inputs stacked along axis 0 of rank-1 vectors, outputs along oax of rank-2 arrays
+        full_o = list(common)
+        full_o[oax % 2] = sum(o_.oshape[oax % 2] for o_ in ops)
+        idx = np.arange(int(np.prod(full_o))).reshape(full_o)
+        want = np.zeros((int(np.prod(full_o)), sum(o_.ishape[0] for o_ in ops)), dtype=np.complex128)
+        ro, co = 0, 0
+        for o_ in ops:
+            sl = [slice(None)] * 2
+            sl[oax % 2] = slice(ro, ro + o_.oshape[oax % 2])
+            rows = idx[tuple(sl)].ravel()
+            want[np.ix_(rows, np.arange(co, co + o_.ishape[0]))] = dense_matrix(o_)
+            ro += o_.oshape[oax % 2]
+            co += o_.ishape[0]
+        op._expected_dense = want
+        op._expected_oshape = full_o
+        return op
     if cls == "FiniteDifference":
         return L.FiniteDifference(sh("n", r), axes=v.get("axes"))
     raise KeyError(cls)
@@ -209,6 +246,14 @@ def check_algebra(A, cls, v):
     """dense matrix of the composite vs the matrix expression of its parts (structural classes only)"""
     import sigpy as sp
     bad = []
+    exp = getattr(A, "_expected_dense", None)
+    if exp is not None:
+        M = dense_matrix(A)
+        if getattr(A, "_expected_oshape", None) is not None and list(A.oshape) != list(A._expected_oshape):
+            bad.append("C03: advertised oshape %s, expected %s" % (list(A.oshape), list(A._expected_oshape)))
+        elif exp.shape != M.shape or np.max(np.abs(exp - M)) > 1e-9 * max(1, np.max(np.abs(exp))):
+            bad.append("C03: operator expression acts differently from the explicit matrix expression (max dev %g)" % (np.max(np.abs(exp - M)) if exp.shape == M.shape else -1))
+        return bad
     ops = getattr(A, "linops", None)
     if ops is None:
         return bad
